@@ -141,6 +141,9 @@ def run_level(ctx, stop_first=False):
         dict(dev="bar", cur={"source": 4.0, "drain": -4.0}, B=0.4, opts=dict(dt_init=2e-3, dt_max=2e-2, adaptive=True, adaptive_window=2)),
     ]
     cfgs.append(dict(dev="ring", cur=None, B=0.5, lam=0.4, opts=dict(dt_init=5e-3, adaptive=False, include_screening=True, screening_tolerance=1e-3)))
+    # no applied field at all (the vector potential of the reference gauge is identically zero), screening on, a bias
+    # current: the other gauges are constant vectors
+    cfgs.append(dict(dev="bar", cur={"source": 4.0, "drain": -4.0}, B=0.0, lam=0.5, opts=dict(dt_init=5e-3, adaptive=False, include_screening=True, screening_tolerance=1e-3)))
     # link variables refreshed in place during the run (time-dependent field / screening), terminals not pinned
     cfgs.append(dict(dev="bar", cur={"source": 2.0, "drain": -2.0}, B=0.5, td=True, opts=dict(dt_init=5e-3, adaptive=False, terminal_psi=None)))
     if not ctx.quick:
